@@ -2,15 +2,17 @@
    (1) Server side, for every pipelined sequence of well-formed body-less requests, every segmentation of the byte
        stream and every handler: the bytes written to the connection are the concatenation, in request order, of each
        request's own answer - exactly one answer per request, none missing, none duplicated, none reordered.
-       Composition of C06 (segmentation), C07 (round trip, partial: body-less requests), the serialisation of jobs (C05)
-       and the response writer model (C09). Requests with bodies and the close decision are covered by the harness.
+       Composition of C06 (segmentation), C07 (round trip), the serialisation of jobs (C05) and the response writer
+       model (C09). c10_one_answer_per_request_in_order_bodies_partial is the same for streams mixing body-less,
+       Content-Length framed and chunked requests (the handler is handed exactly the body bytes). Chunk extensions,
+       trailers and the close decision are covered by the harness.
    (2) Client side: each request's callback is invoked at most once in every history, exactly once when the connection
        is eventually closed, and responses are matched to callbacks in FIFO order.
    Isolation between connections holds in the model by construction (no shared state); in the code the only shared
    state is the buffer pools - that is what properties C11 and C20 are about. *)
 From Coq Require Import List NArith ZArith Bool Arith Lia.
 Import ListNotations.
-From HttpC Require Import HttpParser C06Proofs C06Limit C07Reqs C07 C06.
+From HttpC Require Import HttpParser C06Proofs C06Limit C07Reqs C07Dec C07Body C07Chunk C07Msg C07 C06.
 From HttpRespC Require Import Response.
 Require Import Server ClientFifo.
 
@@ -63,6 +65,68 @@ Proof.
   rewrite Hf, E. cbn [run_bytes events_of fst snd app].
   now rewrite split_meanings.
 Qed.
+
+(* the same for requests WITH bodies: Content-Length framed (any bytes) and chunked (any chunk list), mixed with
+   body-less ones in one pipelined stream, any segmentation *)
+Lemma rest_events_shape hs fr : exists a, rest_events hs fr = a ++ [EComplete] /\ ~ In EComplete a.
+Proof.
+  unfold rest_events.
+  assert (Hh : ~ In EComplete (map (fun h => EHeader (canonical (hname h)) (hvalue h)) hs)).
+  { intros H. apply in_map_iff in H as (h & Hh & _). discriminate. }
+  destruct fr as [|b|cs].
+  - exists (map (fun h => EHeader (canonical (hname h)) (hvalue h)) hs ++ [EContentLength (-1)%Z]).
+    split; [now rewrite <- app_assoc|]. intros H. apply in_app_or in H as [H|H]; [auto|]. cbn in H. intuition discriminate.
+  - exists (map (fun h => EHeader (canonical (hname h)) (hvalue h)) hs ++
+            [EHeader k_CL (C07Dec.dec (N.of_nat (length b))); EContentLength (Z.of_nat (length b))] ++ body_events b).
+    split; [repeat rewrite <- app_assoc; reflexivity|].
+    intros H. apply in_app_or in H as [H|H]; [auto|]. apply in_app_or in H as [H|H].
+    + cbn in H. intuition discriminate.
+    + destruct b; cbn in H; intuition discriminate.
+  - exists (map (fun h => EHeader (canonical (hname h)) (hvalue h)) hs ++
+            [EHeader k_TE s_chunked; EContentLength (-1)%Z] ++ map EBody cs).
+    split; [repeat rewrite <- app_assoc; reflexivity|].
+    intros H. apply in_app_or in H as [H|H]; [auto|]. apply in_app_or in H as [H|H].
+    + cbn in H. intuition discriminate.
+    + apply in_map_iff in H as (x & Hx & _). discriminate.
+Qed.
+
+Lemma meaning_msg_shape m : exists a, meaning_msg m = a ++ [EComplete] /\ ~ In EComplete a.
+Proof.
+  unfold meaning_msg. destruct (rest_events_shape (rhdrs (mreq m)) (mbody m)) as (a & E & Hn).
+  exists ([EMethod (rmethod (mreq m)); EURL (rtarget (mreq m)); EProto (rproto (mreq m))] ++ a).
+  cbv zeta. rewrite E. split; [now rewrite <- app_assoc|].
+  intros H. apply in_app_or in H as [H|H]; [cbn in H; intuition discriminate|auto].
+Qed.
+
+Lemma split_meanings_msg ms : split_complete [] (concat (map meaning_msg ms)) = map meaning_msg ms.
+Proof.
+  induction ms as [|m ms IH]; cbn [map concat]; [reflexivity|].
+  destruct (meaning_msg_shape m) as (a & E & Hn). rewrite E, <- app_assoc. cbn [app].
+  rewrite split_complete_app by exact Hn. cbn [app]. now rewrite IH.
+Qed.
+
+Theorem c10_one_answer_per_request_in_order_bodies_partial handler ctx ms segs :
+  Forall wf_msg ms -> concat segs = concat (map render_msg ms) ->
+  serve handler ctx segs = concat (map (answer handler ctx) (map meaning_msg ms)).
+Proof.
+  intros Hw Hs. unfold serve.
+  rewrite (c06_segmentation false segs), Hs.
+  assert (Hb : boundary (HttpParser.init false)) by (unfold boundary, boundaryc, HttpParser.init; cbn; repeat split).
+  destruct (c07_pipelined_msg_partial ms (HttpParser.init false) [] [] Hw Hb) as (p' & _ & E).
+  rewrite app_nil_r in E. cbn [app] in E.
+  assert (Hf : feed 0 (HttpParser.init false) [concat (map render_msg ms)] [] = run_bytes (HttpParser.init false) (concat (map render_msg ms)) []).
+  { rewrite (feed_is_fold [concat (map render_msg ms)] (HttpParser.init false) []) by (unfold live, HttpParser.init; cbn; discriminate).
+    cbn [concat]. now rewrite app_nil_r. }
+  rewrite Hf, E. cbn [run_bytes events_of fst snd app].
+  now rewrite split_meanings_msg.
+Qed.
+
+(* the handler of a request with a body is handed exactly that body: its events contain the body bytes *)
+Example c10_bodies_example :
+  let b := [71;69;84;32;47] in
+  let m := {| mreq := {| rmethod := m_POST; rtarget := [47]; rproto := [72;84;84;80;47;49;46;49]; rhdrs := [] |}; mbody := FLen b |} in
+  In (EBody b) (meaning_msg m).
+Proof. vm_compute. tauto. Qed.
 
 (* ---------- client ---------- *)
 Definition all_ids (s : st) : list nat := map fst (log s) ++ handlers s.
@@ -133,6 +197,7 @@ Example c10_client_example :
 Proof. reflexivity. Qed.
 
 Print Assumptions c10_one_answer_per_request_in_order_partial.
+Print Assumptions c10_one_answer_per_request_in_order_bodies_partial.
 Print Assumptions c10_client_callbacks_fifo.
 Print Assumptions c10_client_exactly_once.
 Print Assumptions c10_client_close_flushes.
